@@ -514,6 +514,23 @@ def run_project(backend, names, res, isolate=True):
         rc, out = proj.build(bld, backend, [], env=env)
         if rc != 0:
             fail('finddir', 'regenerate-or-rebuild-failed', names[0], output=out[-600:])
+        # a searched directory that disappears: the entry written for it must still denote it
+        # (Make needs a rule for the vanished prerequisite), so that the build goes on
+        import shutil
+        gone = [n for n in names if 'finddir' in exp[n]['produced']]
+        if rc == 0 and gone:
+            for n in gone:
+                shutil.rmtree(os.path.join(src, n + '.f'))
+            proj.settle()
+            rc, out = proj.build(bld, backend, [], env=env)
+            res.ev('finddir:removed-later')
+            if rc != 0:
+                if len(gone) > 1 and isolate:
+                    for n in gone:
+                        run_project(backend, [n], res, isolate=False)
+                else:
+                    fail('finddir', 'removed-directory-blocks-the-build', gone[0],
+                         output=out[-600:])
         res.sample = {'backend': backend, 'names': names,
                       'produced': exp[names[0]]['produced']}
     finally:
